@@ -2,7 +2,8 @@
    Only statements, `exact` of lemmas proved in Proofs/, and Print Assumptions. *)
 From VBase Require Import MachInt.
 From VGen Require Import F64.
-From VProofs Require Import F64Red F64Ops.
+From VBase Require Import ZpOps.
+From VProofs Require Import F64Red F64Ops F64Exp F64Consts.
 Open Scope Z_scope.
 
 (* f64: Montgomery reduction, generated from math/src/field/f64/mod.rs *)
@@ -52,3 +53,41 @@ Print Assumptions C07_f64_eq.
 Theorem C07_f64_val_inj : forall a b, repr a -> repr b -> val a = val b -> a = b.
 Proof. exact val_inj. Qed.
 Print Assumptions C07_f64_val_inj.
+
+(* exponentiation / inversion / division: is_pow a r e := repr r /\ val r = (val a)^e mod M *)
+Theorem C07_f64_exp : forall a p, repr a -> 0 <= p < 2^64 ->
+  repr (f64_exp a p) /\ val (f64_exp a p) = (val a ^ p) mod M.
+Proof. exact f64_exp_spec. Qed.
+Print Assumptions C07_f64_exp.
+
+(* inv is x^(M-2) (with Fermat's little theorem and primality of M -- Proofs/NumTheory* -- this is the
+   multiplicative inverse; zero maps to zero) *)
+Theorem C07_f64_inv_pow : forall a, repr a ->
+  repr (f64_inv a) /\ val (f64_inv a) = (val a ^ (M - 2)) mod M.
+Proof. exact f64_inv_pow. Qed.
+Print Assumptions C07_f64_inv_pow.
+
+Theorem C07_f64_inv_zero : f64_inv 0 = 0.
+Proof. exact f64_inv_zero. Qed.
+Print Assumptions C07_f64_inv_zero.
+
+Theorem C07_f64_div : forall a b, repr a -> repr b ->
+  repr (f64_div a b) /\ val (f64_div a b) = (val a * (val b ^ (M - 2) mod M)) mod M.
+Proof. exact f64_div_spec. Qed.
+Print Assumptions C07_f64_div.
+
+(* constants *)
+Theorem C07_f64_generator : val f64_GENERATOR = 7 /\ zpow_mod M 7 (M - 1) = 1 /\
+  forallb (fun q => negb (zpow_mod M 7 ((M - 1) / q) =? 1)) [2; 3; 5; 17; 257; 65537] = true /\
+  M - 1 = 2^32 * 3 * 5 * 17 * 257 * 65537.
+Proof. exact (conj f64_generator_val (conj (proj1 f64_generator_order) (conj (proj2 f64_generator_order) f64_Mm1_factored))). Qed.
+Print Assumptions C07_f64_generator.
+
+Theorem C07_f64_two_adicity : f64_TWO_ADICITY = 32 /\ (M - 1) mod 2^32 = 0 /\ Z.odd ((M - 1) / 2^32) = true.
+Proof. exact f64_two_adicity. Qed.
+Print Assumptions C07_f64_two_adicity.
+
+Theorem C07_f64_root_of_unity : val f64_TWO_ADIC_ROOT_OF_UNITY = 7277203076849721926 /\
+  zpow_mod M 7277203076849721926 (2^32) = 1 /\ zpow_mod M 7277203076849721926 (2^31) = M - 1.
+Proof. exact (conj (proj1 f64_root_def) f64_root_order). Qed.
+Print Assumptions C07_f64_root_of_unity.
